@@ -670,10 +670,15 @@ def plugin_digest(unit):
 
 
 def region_dict_digest(d):
-    if d["type"] == "RectangularRegion":
-        return "R:%s:%s:%s:%s:%s" % (impl.hexs(d["id"]), impl.hexf(d["x1"]), impl.hexf(d["y1"]),
-                                     impl.hexf(d["x2"]), impl.hexf(d["y2"]))
-    return "C:%s:%s:%s:%s" % (impl.hexs(d["id"]), impl.hexf(d["cx"]), impl.hexf(d["cy"]), impl.hexf(d["r"]))
+    """digest of a serialised region (payloads, GET); a property that is not there shows as such"""
+    def num(k):
+        return impl.hexf(d[k]) if k in d else "missing-" + k
+    rid = impl.hexs(d["id"]) if "id" in d else "missing-id"
+    if d.get("type") == "RectangularRegion":
+        return "R:%s:%s:%s:%s:%s" % (rid, num("x1"), num("y1"), num("x2"), num("y2"))
+    if d.get("type") == "CircularRegion":
+        return "C:%s:%s:%s:%s" % (rid, num("cx"), num("cy"), num("r"))
+    return "?:%r" % (d,)
 
 
 def settings_words(st):
@@ -923,6 +928,9 @@ def gen_two_prints(r):
             ops.append(("gcode", c, impl.split_cmd(c)[0]))
     if r.random() < 0.8:
         ops.append(("event", r.choice(["PRINT_DONE", "PRINT_FAILED", "PRINT_CANCELLED", "PRINT_CANCELLING"])))
+        if r.random() < 0.3:
+            # the hook invoked after the print has ended (possibly with an episode still open)
+            ops.append(("script", "gcode", "afterPrintDone"))
     # else: the job is started again without any end event in between (e.g. a paused job restarted)
     if r.random() < 0.4:
         # between the prints nothing is filtered or tracked, whatever state the first print ended in
@@ -937,6 +945,9 @@ def gen_two_prints(r):
         # ends inside an episode, after a Z hop made outside was undone inside
         ["G28", "G1 X5 Y5 Z0.2 F3000", "G1 Z2", "G1 X15 Y15", "G1 Z0.3", "M117 hi"],
         ["G28", "G1 X5 Y5 Z2 F3000", "G1 X15 Y15 Z1 E1", "G1 Z0.2", "G1 E0.5"],
+        # positioning mode switched inside the last episode
+        ["G28", "G1 X5 Y5 Z0.3 F3000", "G1 X15 Y15", "G91", "G1 Z10"],
+        ["G28", "G91", "G1 X5 Y5 Z0.3 F3000", "G1 X10 Y10", "G90", "G1 Z3"],
     ])
     pause_at = r.randint(1, len(tail)) if r.random() < 0.3 else -1
     for k, c in enumerate(tail):
@@ -959,6 +970,15 @@ def gen_plugin_case(r):
     ids = ["a", "b", "c", ""]          # "" : a falsy id is an id like any other
     n = r.randint(3, 25)
     twice = r.randint(0, n) if r.random() < 0.2 else -1
+    if r.random() < 0.2:
+        # several regions (one touching the origin), a print, moves ending in the later ones
+        ops += [("api", False, "addExcludeRegion", {"type": "RectangularRegion", "x1": 0.0, "y1": 0.0, "x2": 5.0, "y2": 4.0, "id": "o"}),
+                ("api", False, "addExcludeRegion", {"type": "RectangularRegion", "x1": 40.0, "y1": 40.0, "x2": 50.0, "y2": 50.0, "id": "p"}),
+                ("api", False, "addExcludeRegion", {"type": "CircularRegion", "cx": 70.0, "cy": 0.0, "r": 5.0, "id": "q"}),
+                ("get",), start_event(r)]
+        for c in ["G28", "G1 X30 Y30 F3000"] + r.sample(["G1 X45 Y45 E1", "G1 X70 Y1", "G1 X2 Y2", "G1 X30 Y31"], 3):
+            ops.append(("gcode", c, impl.split_cmd(c)[0]))
+        ops.append(("get",))
     for step in range(n):
         if step == twice:
             # the same (possibly falsy) id offered twice with different geometry, then deleted
@@ -1031,7 +1051,7 @@ FILE_LINES = ["G28", "G1 X5 Y5 Z0.2 F3000", "G1 X15 Y15 E1", "G1 X16 Y15 E1.5", 
               "G1 X30 Y30", "G1 E1.5", "G1 X31 Y30 E2", "M117 hello", "M204 P500 T3", "G4 P10", "G10 S1",
               "G11", "G92 E0", "G91", "G90", "G20", "G21", "G1 Z0.4", "G1 X12 Y18 Z0.6", "G1 X40 Y40 E3",
               "M106 S255", "T0", "G2 X20 Y5 I5 J0", "@ExcludeRegion off", "@ExcludeRegion on", "@pause",
-              "@ExcludeRegion bogus", "", "  ", "; comment only", "  ; indented comment", "hello world",
+              "@ExcludeRegion bogus", "@@ExcludeRegion off", "@@pause", "@ ExcludeRegion off", "", "  ", "; comment only", "  ; indented comment", "hello world",
               "M117 Hello; there", "G1 X15 Y15 ; into the region", "N7 G1 X30 Y31*55", "(note)"]
 
 
